@@ -6,9 +6,11 @@ git diff --quiet || { echo "/repo not clean"; exit 2; }
 git apply /verif/seeded/$ID/patch.diff || { echo "patch failed"; exit 2; }
 cd /verif
 for P in "$@"; do
+  cp evidence/$P.json /tmp/wt/evidence_backup_$P.json 2>/dev/null
   timeout 3000 ./check $P --tier quick > /tmp/wt/try_${ID}_$P.log 2>&1; RC=$?
   echo "seed=$ID check=$P rc=$RC $(grep -c '^VIOLATION' /tmp/wt/try_${ID}_$P.log) violation lines; $(grep '^VIOLATION' /tmp/wt/try_${ID}_$P.log | head -2 | tr '\n' ' ')"
   tail -1 /tmp/wt/try_${ID}_$P.log
+  cp /tmp/wt/evidence_backup_$P.json evidence/$P.json 2>/dev/null
 done
 git -C /repo checkout -- .
 rm -rf /repo/.hypothesis/examples /repo/.hypothesis/constants
